@@ -219,7 +219,7 @@ def run(ctx):
             do(ctx, 'density', [t], nontrivial=('d', it) if nt else None)
         ctx.res.count('rank%d_N%d' % (t[1], n))
     # LARGE groups: the expansion enumerates 2^(N-r) selections through their binary representations -- more generators than fit one byte, two bytes
-    for k, n in ([(8, 8), (9, 9), (9, 10), (10, 11), (12, 12)] + ([(15, 15), (16, 16), (17, 17)] if ctx.tier == 'thorough' and not ctx.is_worker else [])):
+    for k, n in ([(8, 8), (9, 9), (9, 10), (10, 11), (12, 12), (1, 63), (2, 64), (3, 65)] + ([(15, 15), (16, 16), (17, 17)] if ctx.tier == 'thorough' and not ctx.is_worker else [])):
         t = gen.rtableau(rng, ctx.model, n, r=n - k)
         do(ctx, 'density', [t], nontrivial=('dl', k, n))
         ctx.res.count('density_generators_%d' % k)
